@@ -2,6 +2,7 @@ package main
 
 import (
 	"bytes"
+	"context"
 	"encoding/hex"
 	"fmt"
 	"os"
@@ -23,11 +24,16 @@ type c19Repo struct {
 }
 
 func (c *runCtx) goitRun(dir string, args ...string) (string, int) {
-	cmd := exec.Command(c.goit, args...)
+	ctx, cancel := context.WithTimeout(context.Background(), 30*time.Second)
+	defer cancel()
+	cmd := exec.CommandContext(ctx, c.goit, args...)
 	cmd.Dir = dir
 	cmd.Env = []string{"HOME=" + os.Getenv("HOME"), "NO_COLOR=1", "TZ=UTC"}
 	out, err := cmd.CombinedOutput()
 	code := 0
+	if ctx.Err() != nil {
+		return string(out) + "\nfatal error: (harness) command did not finish within 30 s and was killed", 124
+	}
 	if err != nil {
 		code = 1
 		if ee, ok := err.(*exec.ExitError); ok {
